@@ -25,6 +25,7 @@ TRUSTED = {
     r"fn clone\(&self\)": "E3': #[derive(Clone)] on FileEntry / Manifest replaced by a trusted spec: the clone has the same view (field-wise copy)",
     r"fn default\(\)": "E3': #[derive(Default)] on Manifest replaced by a trusted spec: schema 0, empty key, no files",
     r"\[std::mem::take\]": "O5: mem::take returns the old value and leaves T::default()",
+    r"fn vp_u32_to_be_bytes|fn vp_u32_from_be_bytes": "O5: big-endian counterparts (only reached if the source switches byte order)",
     r"fn vp_u32_to_le_bytes": "O5: u32::to_le_bytes = the four bytes, least significant first (checked against the real std function by the Kani job)",
     r"fn vp_u32_from_le_bytes": "O5: u32::from_le_bytes = b0 | b1<<8 | b2<<16 | b3<<24 (checked against the real std function by the Kani job)",
     r"split_first_chunk": "O5: <[T]>::split_first_chunk::<N> = None if shorter than N, else (first N, rest)",
@@ -94,6 +95,18 @@ SAVE_SPEC = """    requires laws(), wf(*old(self), *old(fs)),
         // the write (or the serialization) failed while on_disk_current was true
         wf(*final(self), *final(fs)) || (!save_skips(sv(*old(self))) && sv(*old(self)).current && *final(fs) == *old(fs)),
 """
+
+
+def only_jobs(jobs):
+    """VP_ONLY=verus|kani restricts a dry run (`./check --unit`) to one back end: a convenience for mutation smoke tests only;
+    `./check <property>` then reports the other job's baseline obligations as not attempted (undecided), never as passed"""
+    import os
+    only = os.environ.get("VP_ONLY", "")
+    if only == "verus":
+        return [j for j in jobs if isinstance(j, VerusJob)]
+    if only == "kani":
+        return [j for j in jobs if isinstance(j, KaniJob)]
+    return jobs
 
 
 def build(ctx, res):
@@ -183,7 +196,7 @@ def build(ctx, res):
     f.replace("rel: &str)", "rel: &str, %s)" % FS, rule="G1 ghost disk parameter")
     f.replace("fs::read(self.root.join(rel)).ok()?", "vp_fs_read(&self.root, rel, Tracked(fs))?", rule="O14")
     f.replace("data.strip_prefix(BLOB_MAGIC.as_slice())?", "vp_strip_prefix(data.as_slice(), BLOB_MAGIC.as_slice())?", rule="O12")
-    f.replace("u32::from_le_bytes(*version)", "vp_u32_from_le_bytes(*version)", rule="O5")
+    f.sub(r"u32::from_(le|be)_bytes\(", r"vp_u32_from_\1_bytes(", count=1, rule="O5")
     f.spec("    ensures\n" + READ_POST % "rel@")
     f.at_start("    broadcast use lemma_blob_decode_steps;")
     add(f, "Store::read_blob")
@@ -191,7 +204,7 @@ def build(ctx, res):
     f = s.item("fn", "write_blob", impl="Store")
     f.name_return("r")
     f.replace("payload: &[u8])", "payload: &[u8], %s)" % FS, rule="G1 ghost disk parameter")
-    f.replace("SCHEMA_VERSION.to_le_bytes()", "vp_u32_to_le_bytes(SCHEMA_VERSION)", rule="O5")
+    f.sub(r"SCHEMA_VERSION\.to_(le|be)_bytes\(\)", r"vp_u32_to_\1_bytes(SCHEMA_VERSION)", count=1, rule="O5")
     f.replace("content_hash(&data)", "vp_content_hash(&data)", rule="O14")
     f.sub(r"format!\(\"\{FRAGMENT_DIR\}/\{\}/\{\}\.\{FRAGMENT_EXT\}\", &name\[\.\.2\], name\)", "vp_blob_rel(&name)", count=1, rule="O4")
     f.replace("self.root.join(&rel)", "vp_join(&self.root, &rel)", rule="O14")
@@ -343,7 +356,8 @@ def build(ctx, res):
               "Store::save", "Store::gc", "Store::put", "Store::set_diagnostics", "Store::keep", "Store::invalidate", "Store::set_dependents", "Store::set_tests",
               "lemma_le32_roundtrip", "lemma_from_le32_inj", "lemma_blob_roundtrip", "lemma_blob_decode_only_encoded",
               "lemma_blob_decode_steps", "lemma_fv_insert", "lemma_fv_contains", "vp_is_none_or"]
-    return [VerusJob("store", text, vf, expect, canaries=CANARIES, items=items, trusted=TRUSTED, rlimit=60), kani_job(ctx, res)]
+    jobs = [VerusJob("store", text, vf, expect, canaries=CANARIES, items=items, trusted=TRUSTED, rlimit=60), kani_job(ctx, res)]
+    return only_jobs(jobs)
 
 
 KANI_USE = """    use std::collections::{BTreeMap, HashSet};
@@ -358,7 +372,14 @@ KANI_TRUSTED = {
 }
 
 KANI_HARNESSES = [
-    ("blob_roundtrip", "bounded", "Store::write_blob + Store::read_blob", "each payload length 0..=16, all contents"),
+    ("blob_roundtrip_len0", "bounded", "Store::write_blob + Store::read_blob", "payload.len()==0, all contents"),
+    ("blob_roundtrip_len1", "bounded", "Store::write_blob + Store::read_blob", "payload.len()==1, all contents"),
+    ("blob_roundtrip_len2", "bounded", "Store::write_blob + Store::read_blob", "payload.len()==2, all contents"),
+    ("blob_roundtrip_len3", "bounded", "Store::write_blob + Store::read_blob", "payload.len()==3, all contents"),
+    ("blob_roundtrip_len4", "bounded", "Store::write_blob + Store::read_blob", "payload.len()==4, all contents"),
+    ("blob_roundtrip_len5", "bounded", "Store::write_blob + Store::read_blob", "payload.len()==5, all contents"),
+    ("blob_roundtrip_len8", "bounded", "Store::write_blob + Store::read_blob", "payload.len()==8, all contents"),
+    ("blob_roundtrip_len16", "bounded", "Store::write_blob + Store::read_blob", "payload.len()==16, all contents"),
     ("blob_reuse_skips_write", "bounded", "Store::write_blob", "payload.len()==4"),
     ("blob_reject_other_shapes", "bounded", "Store::read_blob", "file.len()<=24"),
     ("blob_missing_is_miss", "proof", "Store::read_blob", None),
